@@ -269,6 +269,12 @@ class WebpageUnavailablePenalty(AbstractReward, discriminator="webpage-unavailab
         if not request_attempted and self.config.sticky:
             return self.reward
 
+        # the agent did something else this step: a non-sticky reward goes back to 0 (the response being looked at
+        # below would be the response to that other action, not to a web page request)
+        if not request_attempted:
+            self.reward = 0.0
+            return self.reward
+
         if last_action_response.response.status != "success":
             self.reward = -1.0
         elif web_browser_state is NOT_PRESENT_IN_STATE or not web_browser_state["history"]:
